@@ -1,5 +1,6 @@
 import Proofs.Powf
 import Proofs.Floor
+import Proofs.Exp2Tiny
 /-! `expf(x) = exp2(floor t) * exp2(t - floor t)`, `t = LOG2_E * x`, against the real exponential on `[-85, 85]`. -/
 namespace Expf
 open F32 MathM Real PolyCert ExpPoly Horner
@@ -173,7 +174,7 @@ theorem expf_close (fm : Bool) (x : Nat) (hx : Finite x) (h : |toReal x| ≤ 85)
     have := abs_sub_abs_le_abs_sub t (c * X)
     nlinarith
   -- floor
-  obtain ⟨hff, n, hfv, hn1, hn2⟩ := FloorL.floor_val (mul LOG2_E x) htb.1 (by linarith)
+  obtain ⟨hff, n, hfv, hn1, hn2⟩ := FloorL.floor_val (mul LOG2_E x) htb.1
   have hfw : WF (floor (mul LOG2_E x)) := floor_wf _ (mul_wf _ _)
   have hnabs : |(n:ℝ)| ≤ 124 := by
     obtain ⟨t1, t2⟩ := abs_le.mp htabs
@@ -232,5 +233,161 @@ theorem expf_close (fm : Bool) (x : Nat) (hx : Finite x) (h : |toReal x| ≤ 85)
     have hδ := expf_exponent (n:ℝ) _ t X c h hc1 hc2 hte' hse' hn1 hn2
     have hprod := expf_product (toReal A) (toReal B) (n:ℝ) _ X hδ hAe hBe
     exact expf_final _ _ _ (exp_pos X) (exp_low X h) hprod hre'
+
+
+/-! ### underflow: `expf(x) = 0` for `-1e38 ≤ x ≤ -88` -/
+
+/-- a product with a zero factor is a zero -/
+theorem mul_of_zero (a b : Nat) (ha : Finite a) (ha0 : toReal a = 0) (hb : Finite b) : Finite (mul a b) ∧ toReal (mul a b) = 0 := by
+  obtain ⟨n1, m1, e1, h1⟩ := ha
+  obtain ⟨n2, m2, e2, h2⟩ := hb
+  have hm : m1 = 0 := by
+    rw [toReal_of_decode _ _ _ _ h1] at ha0
+    unfold valR at ha0
+    rcases mul_eq_zero.mp ha0 with h | h
+    · cases n1 <;> simp at h
+    · rcases mul_eq_zero.mp h with h' | h'
+      · exact_mod_cast h'
+      · exfalso
+        have h2p : (0:ℝ) < (2:ℝ) ^ e1 := by positivity
+        linarith
+  have hmul : mul a b = signBit (n1 != n2) := by
+    unfold mul; rw [h1, h2]; simp [roundPack, hm]
+  rw [hmul]
+  exact ⟨⟨_, _, _, decode_signBit _⟩, by rw [toReal_of_decode _ _ _ _ (decode_signBit _), valR_zero]⟩
+
+/-- `exp2` of an argument at most `-127`: exactly zero -/
+theorem exp2_zero (fm : Bool) (x : Nat) (hx : Finite x) (h : toReal x ≤ -127) :
+    ∃ r, exp2 fm x = .ok r ∧ Finite r ∧ toReal r = 0 := by
+  obtain ⟨c1, c2, c3⟩ := Exp2.cert_clamp_lo
+  obtain ⟨_, _, d3, d4, c5, c6, c7⟩ := Exp2.cert_clamp
+  obtain ⟨flo, vlo⟩ := Exp2.rat_val _ c1
+  obtain ⟨fhi, vhi⟩ := Exp2.rat_val _ d3
+  obtain ⟨fh, vh⟩ := Exp2.rat_val _ c5
+  have vh' : toReal C.exp2_f2 = 1 / 2 := by rw [vh, c6]; push_cast; ring
+  have hlo1 : -127 ≤ toReal (neg C.exp2_f0) := by rw [vlo]; exact_mod_cast c2
+  have hlo2 : toReal (neg C.exp2_f0) ≤ -124 := by rw [vlo]; exact_mod_cast c3
+  have hhi : 124 ≤ toReal C.exp2_f1 := by rw [vhi]; exact_mod_cast d4
+  have hu' : u = 1 / 16777216 := u_val
+  have he' : eta ≤ 1 / 10 ^ 40 := eta_le
+  -- the clamped value is the lower clamp constant
+  obtain ⟨hm1, hm2⟩ := max_val x (neg C.exp2_f0) hx flo
+  have fmx : Finite (F32.max x (neg C.exp2_f0)) := by rcases hm1 with e | e <;> rw [e] <;> assumption
+  have vmx : toReal (F32.max x (neg C.exp2_f0)) = toReal (neg C.exp2_f0) := by rw [hm2]; exact max_eq_right (by linarith)
+  obtain ⟨hn1, hn2⟩ := min_val (F32.max x (neg C.exp2_f0)) C.exp2_f1 fmx fhi
+  have fc : Finite (exp2Clamp x) := by unfold exp2Clamp; rcases hn1 with e | e <;> rw [e] <;> assumption
+  have vc : toReal (exp2Clamp x) = toReal (neg C.exp2_f0) := by
+    unfold exp2Clamp; rw [hn2, vmx]; exact min_eq_left (by linarith)
+  set L := toReal (neg C.exp2_f0) with hL
+  -- lower clamp constant is below -126.9 (so that the truncation gives -127)
+  have hLhi : L ≤ -1269 / 10 := by
+    have : ratOf (neg C.exp2_f0) ≤ -1269 / 10 := by decide +kernel
+    rw [vlo]; exact_mod_cast this
+  obtain ⟨fs, es⟩ := sub_val (exp2Clamp x) C.exp2_f2 c7 fc fh (by rw [vc, vh']; apply fit_small; rw [abs_le]; constructor <;> linarith)
+  rw [vc, vh'] at es
+  set s := toReal (sub (exp2Clamp x) C.exp2_f2) with hs
+  have es' : |s - (L - 1 / 2)| ≤ 1 / 10 ^ 5 := by
+    refine le_trans es ?_
+    have : |L - 1 / 2| ≤ 128 := by rw [abs_le]; constructor <;> linarith
+    rw [hu']; nlinarith
+  obtain ⟨s1, s2⟩ := abs_le.mp es'
+  obtain ⟨i, hi⟩ := Exp2.toI32_ok _ fs (by
+    have : |s| ≤ 128 := by rw [abs_le]; constructor <;> linarith
+    exact lt_of_le_of_lt this (by norm_num))
+  obtain ⟨_, t1, t2, t3⟩ := Exp2.toI32_trunc _ i hi
+  rw [← hs] at t1 t2 t3
+  obtain ⟨u1, u2⟩ := abs_lt.mp t1
+  have hs0 : s < 0 := by linarith
+  have hi0 : (i:ℝ) ≤ 0 := by
+    by_contra hc
+    have := not_le.mp hc
+    nlinarith
+  rw [abs_of_nonpos hi0, abs_of_neg hs0] at t2
+  have hi127 : i = -127 := by
+    have a1 : (-128:ℝ) < (i:ℝ) := by linarith
+    have a2 : (i:ℝ) < -126 := by linarith
+    have b1 : (-128:ℤ) < i := by exact_mod_cast a1
+    have b2 : i < (-126:ℤ) := by exact_mod_cast a2
+    omega
+  subst hi127
+  refine ⟨_, Exp2.exp2_eq fm x (-127) hi, ?_⟩
+  rw [Exp2.exp2Val_eq, Exp2.expi_zero]
+  -- the polynomial factor is finite
+  obtain ⟨hfi, hvi⟩ := Exp2.ofInt_val (-127) (by norm_num)
+  have hwi : WF (ofInt (-127)) := by
+    unfold ofInt; split
+    · unfold WF; omega
+    · exact roundPack_wf _ _ _
+  obtain ⟨hff, hfe⟩ := sub_val (exp2Clamp x) (ofInt (-127)) hwi fc hfi (by rw [hvi, vc]; apply fit_small; push_cast; rw [abs_le]; constructor <;> linarith)
+  rw [hvi, vc] at hfe
+  push_cast at hfe
+  have hfX : |toReal (sub (exp2Clamp x) (ofInt (-127)))| ≤ ((1502 / 1000 : ℚ) : ℝ) := by
+    have := abs_sub_abs_le_abs_sub (toReal (sub (exp2Clamp x) (ofInt (-127)))) (L - -127)
+    have h3 : |L - -127| ≤ 1 / 5 := by rw [abs_le]; constructor <;> linarith
+    push_cast
+    rw [hu'] at hfe
+    nlinarith
+  obtain ⟨c1', _⟩ := Exp2.cert_horner
+  obtain ⟨hhb, _⟩ := Horner.horner_err fm (sub (exp2Clamp x) (ofInt (-127))) (1502 / 1000) ⟨hff, hfX⟩ Exp2.Pc c1'
+  exact mul_of_zero 0 _ c_zero.1 c_zero.2 hhb.1
+
+
+/-- **`expf` underflows to zero**: for every finite `x` with `-1e38 ≤ x ≤ -88` the result is a (finite) zero -/
+theorem expf_lo (fm : Bool) (x : Nat) (hx : Finite x) (h1 : -(10:ℝ) ^ 38 ≤ toReal x) (h2 : toReal x ≤ -88) :
+    ∃ r, expfFast fm x = .ok r ∧ Finite r ∧ toReal r = 0 := by
+  have hu' : u = 1 / 16777216 := u_val
+  have he' : eta ≤ 1 / 10 ^ 40 := eta_le
+  obtain ⟨c1, c2, c3⟩ := cert_log2e
+  obtain ⟨cf, cv⟩ := Exp2.rat_val _ c1
+  have hc1 : (1.4426950216:ℝ) ≤ toReal LOG2_E := by
+    rw [cv]; have := (Rat.cast_le (K := ℝ)).mpr c2; push_cast at this; norm_num at this ⊢; linarith
+  have hc2 : toReal LOG2_E ≤ (1.4426950217:ℝ) := by
+    rw [cv]; have := (Rat.cast_le (K := ℝ)).mpr c3; push_cast at this; norm_num at this ⊢; linarith
+  set c := toReal LOG2_E with hc
+  set X := toReal x with hX
+  have hXabs : |X| ≤ 10 ^ 38 := by rw [abs_le]; constructor <;> linarith
+  have hcabs : |c| ≤ 3 / 2 := by rw [abs_le]; constructor <;> linarith
+  obtain ⟨htb, hte⟩ := mul_bnd LOG2_E x (3 / 2) (10 ^ 38) ⟨cf, hcabs⟩ ⟨hx, hXabs⟩ (by norm_num)
+  set t := toReal (mul LOG2_E x) with ht
+  -- sharper: relative to c X
+  have hte2 : |t - c * X| ≤ u * |c * X| + eta := by
+    obtain ⟨_, h⟩ := mul_bnd LOG2_E x |c| |X| ⟨cf, le_refl _⟩ ⟨hx, le_refl _⟩ (by
+      have : |c| * |X| ≤ (3 / 2) * 10 ^ 38 := mul_le_mul hcabs hXabs (abs_nonneg _) (by norm_num)
+      refine lt_of_le_of_lt this ?_; norm_num)
+    rw [abs_mul]; exact h
+  have hcX : c * X ≤ -126.957 := by nlinarith
+  have hcXneg : c * X < 0 := by linarith
+  have htle : t ≤ -126.95 := by
+    rw [abs_of_neg hcXneg] at hte2
+    have := (abs_le.mp hte2).2
+    rw [hu'] at this; nlinarith
+  have htabs : |t| < (2:ℝ) ^ (127:ℤ) := by
+    refine lt_of_le_of_lt htb.2 ?_; rw [hu']; norm_num; linarith
+  -- floor
+  obtain ⟨hff, n, hfv, hn1, hn2⟩ := FloorL.floor_val (mul LOG2_E x) htb.1
+  have hfw : WF (floor (mul LOG2_E x)) := floor_wf _ (mul_wf _ _)
+  have hn127 : (n:ℝ) ≤ -127 := by
+    have : (n:ℝ) < -126 := by linarith
+    have h' : n < (-126:ℤ) := by exact_mod_cast this
+    have : n ≤ (-127:ℤ) := by omega
+    exact_mod_cast this
+  obtain ⟨A, hA, hAf, hA0⟩ := exp2_zero fm (floor (mul LOG2_E x)) hff (by rw [hfv]; exact hn127)
+  -- fractional part
+  have hfit1 : |toReal (mul LOG2_E x) - toReal (floor (mul LOG2_E x))| < (2:ℝ) ^ (127:ℤ) := by
+    rw [hfv]; apply fit_small; rw [abs_le]; constructor <;> linarith
+  obtain ⟨hsf, _⟩ := sub_val (mul LOG2_E x) (floor (mul LOG2_E x)) hfw htb.1 hff hfit1
+  have hfr0 : 0 ≤ toReal (sub (mul LOG2_E x) (floor (mul LOG2_E x))) := by
+    have := sub_ge (mul LOG2_E x) (floor (mul LOG2_E x)) 0 hfw htb.1 hff c_zero.1 hfit1
+      (by rw [c_zero.2]; apply fit_small; norm_num) (by rw [c_zero.2, hfv]; linarith)
+    rw [c_zero.2] at this; exact this
+  have hfr1 : toReal (sub (mul LOG2_E x) (floor (mul LOG2_E x))) ≤ 1 := by
+    have := sub_le (mul LOG2_E x) (floor (mul LOG2_E x)) 0x3f800000 hfw htb.1 hff c_one.1 hfit1
+      (by rw [c_one.2]; apply fit_small; norm_num) (by rw [c_one.2, hfv]; linarith)
+    rw [c_one.2] at this; exact this
+  obtain ⟨B, hB, hBf, _⟩ := Exp2.exp2_frac fm (sub (mul LOG2_E x) (floor (mul LOG2_E x))) hsf hfr0 hfr1
+  obtain ⟨hrf, hr0⟩ := mul_of_zero A B hAf hA0 hBf
+  refine ⟨mul A B, ?_, hrf, hr0⟩
+  unfold expfFast
+  simp only [hA, hB, Out.bind]
 
 end Expf
